@@ -6,7 +6,8 @@ A definition is a nested JSON-able dict (the same shape as the Lean `Node`):
     leaf  {"t": "L", "f": 3, "srcs": [src, src, src]}              term node nodes.F3(a=…, b=…, c=…)
     macro {"t": "M", "id": 7, "args": [{"d": value|None, "h": 0..3}], "body": [node…], "rets": [ret…],
            "oh": [hint code per return], "srcs": [src per arg], "flow": "auto"|"wired",
-           "lab": "scrape"|"declare", "style": "deco"|"class"}
+           "lab": "scrape"|"declare", "style": "deco"|"class",
+           "base": macro|absent  (the class extends the class of this other definition and overrides graph_creator)}
     src   ["a", k]  the creator's k-th parameter (a UI node)      ["o", j, o]  output o of child j
           ["k", value]  a plain value                             ["n"]        not given
     ret   ["a", k] | ["o", j, o]
@@ -38,6 +39,8 @@ def macros_of(defn, acc=None):
     if defn["t"] == "M":
         for ch in defn["body"]:
             macros_of(ch, acc)
+        if defn.get("base") is not None:
+            macros_of(defn["base"], acc)  # a parent class is defined before the class that extends it
         if all(m["id"] != defn["id"] for m in acc):
             acc.append(defn)
     return acc
@@ -143,7 +146,15 @@ def render_macro(m):
         body.append("pass")
     labels = out_labels(m) if m["lab"] == "declare" else None
     lines = []
-    if m.get("style", "deco") == "deco":
+    if m.get("base") is not None:
+        # a macro class extending another concrete macro class and overriding its graph creator
+        lines.append(f"class {name}(M{m['base']['id']}):")
+        if labels is not None:
+            lines.append(f"    _output_labels = {tuple(labels)!r}")
+        lines.append("")
+        lines.append(f"    def graph_creator{signature(m)}:")
+        lines += ["        " + b for b in body]
+    elif m.get("style", "deco") == "deco":
         deco = "@as_macro_node"
         if labels is not None:
             deco += "(" + ", ".join(repr(x) for x in labels) + ")"
